@@ -254,3 +254,35 @@ class SchulzZimm(RefDist):
 
 def make(family, params):
     return {"gauss": Gauss, "uniform": Uniform, "log_normal": LogNormal, "poisson": Poisson, "flory_schulz": FlorySchulz, "schulz_zimm": SchulzZimm}[family](*params)
+
+
+def decoy_texts(family, params):
+    """distribution texts of OTHER families whose numbers coincide with (family, params) -- parsed before the subject
+    so that any state shared between distribution objects (caches keyed by numbers, ...) is primed against it"""
+    p = [float(x) for x in params]
+    out = []
+    if len(p) == 2:
+        a, b = p
+        if family == "gauss":
+            out.append(f"uniform({int(a)}, {int(a + b)})")
+        if family == "uniform":
+            out.append(f"gauss({a}, {b - a})")
+        for fam in ("gauss", "uniform", "log_normal", "schulz_zimm"):
+            if fam == family:
+                continue
+            if fam == "uniform" and not a < b:
+                continue
+            if fam == "log_normal" and not b > 1:
+                continue
+            if fam == "schulz_zimm" and not a > b > 0:
+                continue
+            out.append(f"{fam}({a}, {b})")
+            if fam != "schulz_zimm" and fam != "log_normal" and b < a and fam == "uniform":
+                out.append(f"{fam}({b}, {a})")
+    else:
+        (a,) = p
+        if family != "poisson" and a > 0:
+            out.append(f"poisson({a})")
+        if family != "flory_schulz" and 0 < a < 1:
+            out.append(f"flory_schulz({a})")
+    return out
